@@ -105,7 +105,7 @@ func H_C05_extremes() {
 var c05Near = []string{
 	"9007199254740993", "9007199254740992", "0.1", "0.2", "0.3", "1.000000000000000000000000000000001", "1", "4503599627370496.5", "9007199254740990.3", "9007199254740990",
 	"1e-400", "0", "2e34", "3", "3e-34", "2", "6999999999999999999999999999999999", "0.7", "-2e34", "-3", "1e6144", "10", "0.1000000000000000055511151231257827", "123456789.123456789",
-	"0.6666666666666666666666666666666667", "9999999999999999999999999999999999", "-0.6666666666666666666666666666666667", "5e-7", "9999999999999999999999999999999999e6111",
+	"0.6666666666666666666666666666666667", "9999999999999999999999999999999999", "-0.6666666666666666666666666666666667", "5e-7", "9999999999999999999999999999999999e6111", "25E-1", "-15E-1", "7E0", "1E+1", "0.5E1",
 }
 
 var c05NearExprs = []string{"to_number(s) == a", "to_number(s) + b", "a + b", "a - b", "a * b", "a / b", "a // b", "a % b", "a == b", "a < b", "a > b", "ceil(a)", "floor(a)", "abs(a)", "sum([a, b])", "avg([a, b])", "-a", "to_number(to_string(a)) == a", "a > `0`", "a == `1`"}
